@@ -18,10 +18,10 @@ import (
 func init() {
 	register(&Prop{
 		ID: "C19", Level: "fault_enumeration", Quick: 80 * 12, Thorough: 2500 * 12,
-		Rule: "trial = (command form, generated valid input); every Write call index k=1..W+1 of the fault-free run x {write_error_once, write_error_sticky, short_write} (+ every Create for toPairAlign directory output) is enumerated, each under several seeded schedules; a trial is non-trivial if at least one injected fault actually fired; distinct = distinct (input, options)",
-		Gen:   genC19,
-		Check: checkC19,
-		Required: []string{"write_error_once", "write_error_sticky", "short_write", "create_error"},
+		Rule:        "trial = (command form, generated valid input); every Write call index k=1..W+1 of the fault-free run x {write_error_once, write_error_sticky, short_write} (+ every Create for toPairAlign directory output) is enumerated, each under several seeded schedules; a trial is non-trivial if at least one injected fault actually fired; distinct = distinct (input, options)",
+		Gen:         genC19,
+		Check:       checkC19,
+		Required:    []string{"write_error_once", "write_error_sticky", "short_write", "create_error"},
 		Assumptions: []string{"exit status: an error returned by the exported entry point becomes exit status 1 in cmd/root.go (not simulated); a panic is a non-zero exit"},
 	})
 	exhaustiveNote["C19/quick"] = "per trial the fault-point range k=1..W+1 is enumerated completely for each fault mode"
